@@ -1,0 +1,31 @@
+//go:build verif
+
+package kv
+
+import (
+	"encoding/json"
+
+	"github.com/jrhy/s3db/kv/internal/crdt"
+)
+
+// VerifRootToGob re-encodes a version object written in the JSON root format
+// in the earlier gob root format (KVVersion 0), and VerifRootToJSON does the
+// reverse, so that a verification harness can populate and read buckets in
+// the gob format, which handles keep writing once they have loaded it
+// (build tag verif only).
+func VerifRootToGob(jsonRoot []byte) ([]byte, error) {
+	var root crdt.Root
+	if err := json.Unmarshal(jsonRoot, &root); err != nil {
+		return nil, err
+	}
+	root.KVVersion = 0
+	return marshalGob(root)
+}
+
+func VerifRootToJSON(gobRoot []byte) ([]byte, error) {
+	var root crdt.Root
+	if err := unmarshalGob(gobRoot, &root); err != nil {
+		return nil, err
+	}
+	return json.Marshal(root)
+}
